@@ -3,6 +3,7 @@ package main
 import (
 	"bytes"
 	"fmt"
+	"sort"
 	"strconv"
 
 	"github.com/ozanh/ugo"
@@ -83,7 +84,31 @@ func runTrace(args []*Sexp) *Sexp {
 		}
 		files.List = append(files.List, L(hexAtom([]byte(f.Name)), A(strconv.Itoa(f.Base)), A(strconv.Itoa(f.Size)), lines, samples, fileof))
 	}
-	return L(A("traced"), A(name), trace, files)
+	// the real source map of every compiled function with the implementation's nearest-lower lookup
+	smaps := L(A("smaps"))
+	fns := []*ugo.CompiledFunction{bc.Main}
+	for _, c := range bc.Constants {
+		if cf, ok := c.(*ugo.CompiledFunction); ok {
+			fns = append(fns, cf)
+		}
+	}
+	for _, cf := range fns {
+		keys := make([]int, 0, len(cf.SourceMap))
+		for k := range cf.SourceMap {
+			keys = append(keys, k)
+		}
+		sort.Ints(keys)
+		pairs := L(A("pairs"))
+		for _, k := range keys {
+			pairs.List = append(pairs.List, L(A(strconv.Itoa(k)), A(strconv.Itoa(cf.SourceMap[k]))))
+		}
+		qs := L(A("queries"))
+		for ip := -2; ip <= len(cf.Instructions)+2; ip++ {
+			qs.List = append(qs.List, L(A(strconv.Itoa(ip)), A(strconv.Itoa(int(cf.SourcePos(ip))))))
+		}
+		smaps.List = append(smaps.List, L(pairs, qs))
+	}
+	return L(A("traced"), A(name), trace, files, smaps)
 }
 
 // (case id addlines <size> (offs o1 o2 ...)): a new file of the given size, AddLine for every offset in turn
